@@ -164,18 +164,19 @@ def inst_explicit(m0, m1):
 
 
 def inst_explicit_fractional():
-    """an explicit tuple of sizes given as floats, ((a0, a1),) with a0 + a1 == n: whatever is returned sums to n (sizes that
-    are whole numbers are kept as integers); sizes with a fractional part cannot be a layout -- refusing them is fine,
-    truncating them is not"""
+    """an explicit tuple of sizes given as floats, ((a0, a1),) with a0 + a1 == n, the sizes being multiples of one half:
+    whatever is returned sums to n (sizes that are whole numbers are kept as integers); sizes with a fractional part cannot be
+    a layout -- refusing them is fine, truncating them is not"""
     def body(E):
         w = W(E)
-        a = tuple(E.real(f"a{i}") for i in range(2))
+        k = tuple(E.int(f"k{i}", 1) for i in range(2))
+        a = tuple(v / 2 for v in k)  # (integer-ratio reals: truncation is decided in integer arithmetic)
         n = E.int("n0", 1)
-        E.assume(AND(a[0] > 0, a[1] > 0, a[0] + a[1] == n))
+        E.assume(k[0] + k[1] == 2 * n)
         try:
             out = w.fn(CU, "normalize_chunks")((a,), (n,))
         except ValueError:
-            E.ensure("whole-sizes-are-accepted", NOT(AND(*[v == v.__floor__() for v in a])))
+            E.ensure("whole-sizes-are-accepted", NOT(AND(*[v % 2 == 0 for v in k])))
             return
         E.ensure("one-axis", len(out) == 1)
         E.ensure("sizes-sum-to-the-length", sum(out[0]) == n)
@@ -183,10 +184,7 @@ def inst_explicit_fractional():
     def api(values):
         from dask_array._core_utils import normalize_chunks
 
-        def num(v):  # real-valued witnesses are handed over as [numerator, denominator]
-            return v[0] / v[1] if isinstance(v, (list, tuple)) else float(v)
-
-        a = tuple(num(values[f"a{i}"]) for i in range(2))
+        a = tuple(values[f"k{i}"] / 2 for i in range(2))
         n = values["n0"]
         try:
             out = normalize_chunks((a,), (n,))
